@@ -40,6 +40,16 @@ def load(prop):
         return importlib.import_module(CHECKS[prop])
 
 
+def _excepthook(tp, val, tb):
+    import traceback
+    print('HARNESS-ERROR uncaught exception\n' +
+          ''.join(traceback.format_exception(tp, val, tb)), file=sys.stderr)
+    os._exit(2)
+
+
+sys.excepthook = _excepthook
+
+
 def _exec_fp(args):
     mod, plan = args
     return digest(importlib.import_module(mod).execute(plan)['fingerprint'])
@@ -225,6 +235,11 @@ def main():
         return cmd_check(a.what, a.tier, a.seed, a.nproc)
     except HarnessError as e:
         print(f'HARNESS-ERROR {e}', file=sys.stderr)
+        return 2
+    except BaseException:   # noqa  a crash of the machinery is never exit 1
+        import traceback
+        print('HARNESS-ERROR unexpected exception\n' +
+              traceback.format_exc(), file=sys.stderr)
         return 2
 
 
